@@ -497,6 +497,8 @@ def run_kani_vec(report, tier, seed, which, config="default", lanes=None, name_f
     if "alloc" in config:
         # Vec::extend_from_slice with an empty slice does not finish in CBMC (400 s timeouts); it is a no-op by inspection
         hs = [h for h in hs if not re.search(r"c13_extend_\d+_0$", h)]
+        # the concrete-operand long_mul / pow runs do not fold on the heap vector (400 s timeouts): stack back-end only
+        hs = [h for h in hs if "_concrete" not in h]
     timeout = 400 if tier == "quick" else 1500
     return run_kani(report, "vec", config, hs, "vec:" + "+".join(which), timeout=timeout, lanes=lanes or 14,
                     extra=("-Z", "stubbing"))
